@@ -11,7 +11,7 @@ FailingCli == {"cli_query_missing_file", "cli_dist_bad_params", "cli_query_forei
 \* (file_sessionmaker(path, readonly=False)), only reads through it and closes it; it must not change what the DEFAULT
 \* session does afterwards
 LibCmds == {"lib_load", "lib_edit", "lib_add", "lib_delete", "lib_flush", "lib_commit", "lib_begin_block", "lib_rollback",
-            "lib_query", "lib_close", "lib_read_sigs", "lib_other_rw_reader", "lib_other_ro_reader"}
+            "lib_query", "lib_close", "lib_read_sigs", "lib_other_rw_reader", "lib_other_ro_reader", "lib_tree_walk"}
 Cmds == CliCmds \cup LibCmds
 
 \* pending new/dirty/deleted sets a READ-ONLY session may show after command c, given those before it:
